@@ -9,7 +9,7 @@ from .common import *
 
 META = {
     "level": "other",
-    "explanation": "Table and formula agreement against independent specification tables (sa/tables.py, each entry citing its source): (R1) each of the 49 public numeric names (Int8..64 u/s b/l/n, Int24*, Float16/32/64 b/l/n, Byte/Short/Int/Long/Half/Single/Double, Bit/Nibble/Octet) is bound to exactly the constructor term its name implies -- FormatField(order, code) per the struct format table, BytesInteger(3, signed, swapped in {False, True, native}) with native = (sys.byteorder == 'little'), BitsInteger(n) -- and is exported in __all__; (R2) the encoding-unit table equals the Unicode code-unit widths, encodingunit returns that many zero bytes, and CString/PaddedString/PascalString/GreedyString wrap exactly the documented delimiter constructs with that unit as terminator/pad and the caller's encoding; (R3) Struct/Sequence/FocusedSeq/Array touch the stream only through their members, in declaration order (with C01.R6); (R4) rejection guards exist with the right polarity: non-integers and negative VarInts are IntegerError, integer2bits has the two's-complement range check, integer2bytes delegates the range check to int.to_bytes(signed=signed) and converts OverflowError; (R5) pad/length formulas equal the reference normal forms: Padded pad = length - consumed with pad < 0 rejected, Aligned pad = (-consumed) mod modulus, Prefixed writes len(payload) [+ sizeof(lengthfield) iff includelength] into the length field, on both code paths; (R7) LEB128 canonicality and byte ranges of VarInt._build by interval analysis. R5 also carries NullTerminated's parse-side terminator rules (shared with C08.R2); R7 runs in both tiers.",
+    "explanation": "Table and formula agreement against independent specification tables (sa/tables.py, each entry citing its source): (R1) each of the 49 public numeric names (Int8..64 u/s b/l/n, Int24*, Float16/32/64 b/l/n, Byte/Short/Int/Long/Half/Single/Double, Bit/Nibble/Octet) is bound to exactly the constructor term its name implies -- FormatField(order, code) per the struct format table, BytesInteger(3, signed, swapped in {False, True, native}) with native = (sys.byteorder == 'little'), BitsInteger(n) -- and is exported in __all__; (R2) the encoding-unit table equals the Unicode code-unit widths, encodingunit returns that many zero bytes, and CString/PaddedString/PascalString/GreedyString wrap exactly the documented delimiter constructs with that unit as terminator/pad and the caller's encoding; (R3) Struct/Sequence/FocusedSeq/Array touch the stream only through their members, in declaration order (with C01.R6); (R4) rejection guards exist with the right polarity: non-integers and negative VarInts are IntegerError, integer2bits has the two's-complement range check, integer2bytes delegates the range check to int.to_bytes(signed=signed) and converts OverflowError; (R5) pad/length formulas equal the reference normal forms: Padded pad = length - consumed with pad < 0 rejected, Aligned pad = (-consumed) mod modulus, Prefixed writes len(payload) [+ sizeof(lengthfield) iff includelength] into the length field, on both code paths; (R7) LEB128 canonicality and byte ranges of VarInt._build by interval analysis. R5 also carries NullTerminated's parse-side terminator rules (shared with C08.R2); R7 runs in both tiers. (R8) the generated code of the core-fragment classes agrees with the interpreter methods the other rules compare with the reference (shared with C04.R3/R7).",
     "undecided": "Numerical semantics: two's-complement arithmetic inside the helpers, IEEE-754 (delegated to struct), ZigZag algebra, consumed-byte counts on arbitrary byte strings.",
     "trusted_base": ["python ast (3.12)", "sa/tables.py (struct format characters, Unicode code units)", "sa.summ / sa.pos"],
     "assumptions": ["the struct module implements its documented format characters"],
@@ -353,6 +353,10 @@ def run(ctx):
     ok = bool(one) and all(any(e.kind == "NEWSTREAM" and e["args"] and e["args"][0][0] == "call" and e["args"][0][1][0] == "attr" and e["args"][0][1][2] == "rstrip" and e["args"][0][2] == (pad,) for e in p.events) for p in one)
     ctx.ob("C03.R5", fi, ok, "NullStripped strips the pad byte from the right only", key="NullStripped rstrip")
     ctx.floor("C03.R5", 17)
+    from . import C04
+    C04.shared_obligations(ctx, "C03.R8", {"FormatField", "BytesInteger", "BitsInteger", "VarInt", "ZigZag", "Flag", "Bytes", "GreedyBytes", "StringEncoded", "Padded", "Aligned", "Prefixed",
+                                           "PrefixedArray", "Array", "GreedyRange", "Struct", "Sequence", "Enum", "Mapping", "FlagsEnum", "Const", "NullTerminated", "NullStripped", "FixedSized"})
+    ctx.floor("C03.R8", 20)
 
     from .. import interval
     interval.leb128_obligations(ctx, "C03.R7")
